@@ -150,8 +150,7 @@ func (d *zzvDag) fetch(c cid.Cid) ([]*format.Link, error) {
 }
 
 func (d *zzvDag) fetchLocked(c cid.Cid) ([]*format.Link, int, error) {
-	d.mu.Lock()
-	defer d.mu.Unlock()
+	defer zzvLock(&d.mu)()
 	i, ok := d.idx[c]
 	if !ok {
 		d.alien++
@@ -173,6 +172,16 @@ func (d *zzvDag) fetchLocked(c cid.Cid) ([]*format.Link, int, error) {
 
 func (d *zzvDag) getLinks(ctx context.Context, c cid.Cid) ([]*format.Link, error) {
 	return d.fetch(c)
+}
+
+// zzvLock protects the recorders in the native replay (real threads). Under the engine a goroutine runs atomically
+// between synchronisation points, so the lock is not taken there (it would only add scheduling points).
+func zzvLock(mu *sync.Mutex) func() {
+	if verifrt.Symbolic() {
+		return func() {}
+	}
+	mu.Lock()
+	return mu.Unlock
 }
 
 func zzvErrKind(err error) int {
@@ -225,14 +234,12 @@ func (r *zzvRec) node(c cid.Cid) int {
 }
 
 func (r *zzvRec) onMissing(c cid.Cid) {
-	r.mu.Lock()
-	defer r.mu.Unlock()
+	defer zzvLock(&r.mu)()
 	r.missingCb = append(r.missingCb, r.node(c))
 }
 
 func (r *zzvRec) onError(c cid.Cid, err error) error {
-	r.mu.Lock()
-	defer r.mu.Unlock()
+	defer zzvLock(&r.mu)()
 	if err == nil {
 		// a composed chain may hand an already-handled (nil) error on; nothing to record, nothing to do
 		return nil
@@ -249,8 +256,7 @@ func (r *zzvRec) onError(c cid.Cid, err error) error {
 
 // StartProviding implements provider.MultihashProvider.
 func (r *zzvRec) StartProviding(force bool, keys ...mh.Multihash) error {
-	r.mu.Lock()
-	defer r.mu.Unlock()
+	defer zzvLock(&r.mu)()
 	if force {
 		r.forced++
 	}
@@ -658,7 +664,10 @@ func zzvRunPar(n, failures, maxOpts, workers int) {
 	d := zzvNewDag(n, failures, false)
 	r := &zzvRec{d: d}
 	if verifrt.Param("SLOW", 0) != 0 {
-		d.slow = verifrt.NondetRange("slowNode", -1, n-1)
+		d.slow = verifrt.NondetRange("slowNode", 0, n-2)
+		if d.slow == 0 {
+			d.slow = -1
+		}
 	}
 	skipRoot := verifrt.NondetBool("skipRoot")
 	var chain []int
@@ -736,9 +745,13 @@ func zzvRunFetchGraph(n, failures, workers int) {
 	d := zzvNewDag(n, failures, false)
 	r := &zzvRec{d: d}
 	if workers != 1 && verifrt.Param("SLOW", 0) != 0 {
-		d.slow = verifrt.NondetRange("slowNode", -1, n-1)
+		// the root (nothing else runs yet) and the last node (no children) are never the slow one; 0 = none
+		d.slow = verifrt.NondetRange("slowNode", 0, n-2)
+		if d.slow == 0 {
+			d.slow = -1
+		}
 	}
-	lim := verifrt.NondetRange("depthLimit", -1, n-1)
+	lim := verifrt.NondetRange("depthLimit", -1, verifrt.Param("LIMMAX", n-1))
 	var chain []int
 	if failures > 0 && verifrt.NondetBool("ignoreMissing") {
 		chain = []int{zzvOptIgnoreMissing}
@@ -820,4 +833,23 @@ func HarnessC12FetchGraphSeq() {
 // HarnessC12FetchGraphPar: depth-limited fetch through the concurrent walk.
 func HarnessC12FetchGraphPar() {
 	zzvRunFetchGraph(verifrt.Param("N", 4), verifrt.Param("FAIL", 0), verifrt.Param("W", 2))
+}
+
+// HarnessC12ParShapesExplore / HarnessC12ParErrorsExplore / HarnessC12FetchGraphExplore: the same checks with the
+// scheduler forking at every synchronisation point (bounded number of pre-emptions), small pools.
+func HarnessC12ParShapesExplore() {
+	zzvRunPar(verifrt.Param("N", 3), 0, 0, verifrt.Param("W", 2))
+}
+
+func HarnessC12ParErrorsExplore() {
+	zzvRunPar(verifrt.Param("N", 2), verifrt.Param("FAIL", 2), verifrt.Param("MAXOPTS", 2), verifrt.Param("W", 2))
+}
+
+func HarnessC12FetchGraphExplore() {
+	zzvRunFetchGraph(verifrt.Param("N", 3), verifrt.Param("FAIL", 0), verifrt.Param("W", 2))
+}
+
+// HarnessC12FetchGraphDefault: FetchGraph with its default concurrency (32 fetchers), one schedule.
+func HarnessC12FetchGraphDefault() {
+	zzvRunFetchGraph(verifrt.Param("N", 4), verifrt.Param("FAIL", 0), 0)
 }
